@@ -41,8 +41,21 @@ def evalAgg (E : Env) (fn : String) (vs : List Value) : Option Value :=
   | "collectd" => some (Agg.collectDistinct vs)
   | _ => none
 
+/-- min / max by the Spec: when the Spec orders every pair of the group's values (numbers, booleans, strings —
+    same-kind temporal strings chronologically —, different kinds) and that order is a total preorder on them, the
+    result is the fold of the group with it: the first least / the last greatest element (`min_by` / `max_by`) -/
+def specExtreme (E : Env) (isMin : Bool) (xs : List Value) : String :=
+  if xs.isEmpty then "null -" else
+  let total := xs.all fun a => xs.all fun b => (Spec.orderOpinion E a b).isSome
+  let c (a b : Value) : Ordering := (Spec.orderOpinion E a b).getD .eq
+  let pre := xs.all fun a => xs.all fun b =>
+    c a b == (c b a).swap && xs.all fun d => !(c a b != .gt && c b d != .gt && c a d == .gt)
+  if total && pre then
+    obsValue (((if isMin then Agg.minBy c xs else Agg.maxBy c xs)).getD .null)
+  else "-"
+
 /-- what the definitions demand, as an observation pattern (`-`: no opinion) -/
-def specAgg (fn : String) (vs : List Value) : String :=
+def specAgg (E : Env) (fn : String) (vs : List Value) : String :=
   let nn := Spec.nonNull vs
   let distinct := fn.endsWith "d"
   let xs := if distinct then Spec.distinctReps nn else nn
@@ -55,10 +68,8 @@ def specAgg (fn : String) (vs : List Value) : String :=
     else if xs.all isNum then "float *" else "-"
   | "avg" | "avgd" =>
     if !xs.all isNum then "-" else if xs.isEmpty then "null -" else "float *"
-  | "min" | "mind" =>
-    if xs.isEmpty then "null -" else if xs.all isInt then s!"int {intMin (xs.filterMap Spec.asInt)}" else "-"
-  | "max" | "maxd" =>
-    if xs.isEmpty then "null -" else if xs.all isInt then s!"int {intMax (xs.filterMap Spec.asInt)}" else "-"
+  | "min" | "mind" => specExtreme E true xs
+  | "max" | "maxd" => specExtreme E false xs
   | _ => "-"
 
 def step (_ : Unit) (ws : List String) : Unit × String × String × String :=
@@ -69,7 +80,7 @@ def step (_ : Unit) (ws : List String) : Unit × String × String × String :=
     | some vs =>
       let E := mkEnv oracle
       match evalAgg E fn vs with
-      | some r => ((), obsValue r, specAgg fn vs, "")
+      | some r => ((), obsValue r, specAgg E fn vs, "")
       | none => ((), "bad-op", "-", "")
     | none => ((), "bad-op", "-", "")
   | "group" :: rest =>
